@@ -17,6 +17,10 @@ CHECKS = {
          "generated-input search: exhaustive strings over {CR,LF,x} (length<=L) + random strings over the canonicalization alphabet, every sign interface crossed with every applicable verify interface (pairwise oracle: own signature must verify), prefixed messages assembled by an independent framer",
          "exploration: all 3-symbol strings up to length 6 (thorough 8) and random Sigma strings incl. buffer-edge placements; sign interfaces {detached binary/text, SignatureConfig::sign, hasher+Write chunks, builder 1..3 signers, cleartext sign/new/new_many} x verify interfaces {Signature::verify, DetachedSignature::verify, re-parsed binary/armored, Message::verify prefixed and one-pass, verify_nested, extracted one-pass signature as detached, cleartext verify/verify_many/after armor}; all zoo algorithms sampled",
          "only completeness (own signatures verify) is asserted here; soundness is C02; hash algorithms are restricted to those rPGP documents as strong enough for the key"),
+ "C09": ("DESIGN.md §4 C09",
+         "metamorphic generated-input search (reference run vs runs under generated source/consumer/sink schedules) + exhaustive single-fault enumeration (source call k / sink write k, sticky and transient) for a fixed list of builder configurations and armored writers, sampled faults elsewhere",
+         "exploration + fault enumeration: builder output byte-identical under any source/sink fragmentation (clock-free configurations), reader results identical under any source schedule and consumer (read, read_to_end, alternating, exact, fill_buf/consume), Dearmor, key import, detached sign/verify data readers, cleartext parser, CFB stream encryptor; every source call index and sink write index of 48 (quick 24) builder configurations x 3 payload sizes and of 20 armored writers fails once, sticky and transient",
+         "a fault only counts if the library actually made the failing call; polling a reader again after it returned an error is not examined; AEAD stream encryptor is only reachable through the builder"),
  "C10": ("DESIGN.md §4 C10",
          "generated-input search (enumerated lengths + seeded structured tapes) against an independent CRC-24/base64/line-structure oracle, metamorphic tolerance variants, accept-iff-match CRC decision",
          "exploration: every payload length 0..700 (thorough 0..4096, sampled to 1 MiB) x block type x header map x checksum x read schedule x consumer; writer output validated by an independent armor structure parser; reader compared with the original triple",
